@@ -219,6 +219,35 @@ def _narrowing(e, limit_bits):
     return [x for x in paths.arith_subexprs(e) if x[0] == "cast" and x[1] == "trunc" and x[3] < limit_bits]
 
 
+def _index_by_evaluation(p, bit, fn, m):
+    """(True/False/'infeasible', text) or None if the expression has no recognisable (msg - basep) / msg_len atoms."""
+    from ..paths import eval_concrete, NoValue
+    exprs = [bit] + [c for c, t, i in p.conds]
+    lens = set(x for e_ in exprs for x in paths.subexprs(e_) if x[0] == "ld" and _mqf(x[1], fn, m) == "msg_len")
+    offs = set(x for e_ in exprs for x in paths.subexprs(e_) if x[0] == "b" and x[1] == "sub" and
+               paths.contains(x[3], lambda y: y == ("arg", 1)) and paths.contains(x[4], lambda y: y[0] == "ld" and _mqf(y[1], fn, m) == "basep"))
+    if not lens or not offs:
+        return None
+    feasible = 0
+    for ml in list(range(1, 65)) + [96, 100, 128, 255, 256, 1000, 4096]:
+        for k in range(32):
+            env = {x: ml for x in lens}
+            for x in offs:
+                env[x] = k * ml
+            try:
+                if not all(paths.cond_holds(cd, env) for cd in p.conds):
+                    continue
+                feasible += 1
+                got = eval_concrete(bit, env)
+            except NoValue as nv:
+                return False, "not evaluable (undefined?) for msg_len %d, slot %d: %s" % (ml, k, fmt(nv.args[0])[:50])
+            if got != k:
+                return False, "with msg_len %d the message at slot %d sets the flag of slot %d" % (ml, k, got)
+    if not feasible:
+        return "infeasible", ""
+    return True, "equal to the slot for every evaluated message size (1..64, 96, 100, 128, 255, 256, 1000, 4096) and slot 0..31 (%d cases on this path)" % feasible
+
+
 def check_addressing(chk, cfg, m, fn, role):
     tag = "%s[%s]" % (fn.name, cfg)
     n = 0
@@ -263,11 +292,27 @@ def check_addressing(chk, cfg, m, fn, role):
                     n += 1
                     bit = C04._one_bit_mask(e.val)
                     if bit is None:
+                        # 1 << index combined with something else (C04.R5.send decides whether the operand is still that bit)
+                        sh = set(x[4] for x in paths.subexprs(e.val) if x[0] == "b" and x[1] == "shl" and x[3][0] == "c" and x[3][2] == 1)
+                        bit = sh.pop() if len(sh) == 1 else None
+                    if bit is None:
                         chk.unknown("G3.inverse", pathid, "mask is not 1 << index", e.inst.loc)
                         continue
                     core = strip_casts(bit)
                     ok = core[0] == "b" and core[1] == "udiv"
                     why = fmt(bit)[:160]
+                    if not ok:
+                        # not written as a division: evaluated for message sizes 1..64 and some larger ones, every slot 0..31, under
+                        # the path's conditions, the index recovered from basep + slot*msg_len must be the slot
+                        sem = _index_by_evaluation(p, bit, fn, m)
+                        if sem is not None:
+                            if sem[0] == "infeasible":
+                                continue
+                            chk.ob("G3.inverse", pathid, sem[0], "send recovers the slot from (msg - basep) and msg_len: %s" % sem[1], e.inst.loc, fn.name)
+                            bits = strip_casts(e.val)[2] if strip_casts(e.val)[0] == "b" else 0
+                            chk.ob("G4.flag-width", pathid, bits == 32, "flag mask built in %d bits (one bit per slot, 32 slots)" % bits,
+                                   e.inst.loc, fn.name)
+                            continue
                     if ok:
                         num, den = core[3], core[4]
                         dcore = strip_casts(den)
